@@ -1233,7 +1233,7 @@ Fixpoint keys_sorted_b (l : list ustring) : bool :=
 
 (* the taggings the theorems of Props/C0xF.v cover so far (the model and K3 cover all of them: frag_w) *)
 Definition proved_tag (tg : tagty) : bool :=
-  match tg with TagExternal => true | _ => false end.
+  match tg with TagUntagged => false | _ => true end.
 
 (* the raw variant names, in branch order *)
 Definition variant_names (tg : tagty) (bs : list schema) : option (list ustring) :=
@@ -1279,14 +1279,18 @@ Definition branches_ok (cls : Heck.CharClasses) (tg : tagty) (bs : list schema) 
                             closed && forallb (fun kv => mem_ustr (fst kv) req) props
                             && forallb (fun r => has_key r props) req
                             && match assoc t props with Some ts => tag_plain ts | None => false end
+                            && forallb (fun kv => ustr_eqb (fst kv) t || ustr_eqb (fst kv) c) props
+                            && keys_sorted_b (map fst props) && (length props <=? 2)%nat
                         | None => false
                         end) bs
+      && negb (ustr_eqb t c)
       && payloads_ok_l (contents c bs)
   | TagInternal t =>
       forallb (fun b => match tobj b with
                         | Some (props, req, closed) =>
                             let rest := filter (fun kv => negb (ustr_eqb (fst kv) t)) props in
                             match assoc t props with Some ts => tag_plain ts | None => false end
+                            && mem_ustr t req
                             && forallb (fun r => has_key r props) req
                             && keys_sorted_b (map fst props)
                             && Sanitize.unique (map (fun kv => fst (Sanitize.recase cls (fst kv) Sanitize.Snake)) rest)
